@@ -318,17 +318,95 @@ def g_call(name, truth=None, argpred=None):
     return pred
 
 
+CMP_SWAP = {"Eq": "Eq", "Ne": "Ne", "Lt": "Gt", "Gt": "Lt", "Le": "Ge", "Ge": "Le"}
+
+
+def cmp_forms(g):
+    """All equivalent readings (op, a, b, truth) of a comparison guard: negated operator with the other truth value,
+    swapped operands with the mirrored operator."""
+    if g.kind != "bool" or g.term[0] != "cmp":
+        return []
+    op, a, b, t = g.term[1], g.term[2], g.term[3], bool(g.truth)
+    return [(op, a, b, t), (CMP_NEG[op], a, b, not t), (CMP_SWAP[op], b, a, t), (CMP_SWAP[CMP_NEG[op]], b, a, not t)]
+
+
 def g_cmp(op, truth, apred=None, bpred=None):
+    """Guard predicate: the edge is taken exactly when `a op b` has the given truth value - however the test is written
+    (a < b taken / !(a >= b) / b > a ...)."""
     def pred(g):
-        if g.kind != "bool" or g.term[0] != "cmp" or g.term[1] != op or g.truth != truth:
-            return False
-        if apred and not apred(g.term[2]):
-            return False
-        if bpred and not bpred(g.term[3]):
-            return False
-        return True
+        for (o, a, b, t) in cmp_forms(g):
+            if o != op or t != bool(truth):
+                continue
+            if apred and not apred(a):
+                continue
+            if bpred and not bpred(b):
+                continue
+            return True
+        return False
 
     return pred
+
+
+def enum_edge_admits(g, variants, name):
+    """Does switch edge g (a test of an enum-typed term) admit the variant `name`?  None when g is not such a test."""
+    if g.kind == "variant":
+        return g.variant == name
+    if g.kind == "variants":
+        return name in tuple(g.variant)
+    if g.kind == "value" and isinstance(g.value, int):
+        return variants.index(name) == g.value
+    if g.kind == "notvalues":
+        return variants.index(name) not in tuple(g.others)
+    if g.kind == "bool" and g.term[0] == "cmp" and g.term[1] == "Eq":
+        for x in (g.term[2], g.term[3]):
+            x = strip_refs(x)
+            if x[0] == "agg" and x[2] and x[2].split("::")[-1] in variants:
+                return (x[2].split("::")[-1] == name) == bool(g.truth)
+    return None
+
+
+def specialise_enum(fn, is_x, variants, name):
+    """Edges that cannot be taken when the enum-typed term selected by is_x holds variant `name`."""
+    cut = []
+    for (gb, gi, g) in all_guards(fn):
+        if g.kind == "bool" and g.term[0] == "cmp":
+            if not (is_x(strip_refs(g.term[2])) or is_x(strip_refs(g.term[3]))):
+                continue
+        elif not is_x(strip_refs(g.term)):
+            continue
+        a = enum_edge_admits(g, variants, name)
+        if a is False:
+            cut.append((gb, gi))
+    return resolve_bool_temps(fn, cut)
+
+
+def resolve_bool_temps(fn, cut, fold=None):
+    """`matches!(..)` and `a || b` are lowered to a bool temporary set in the arms and tested afterwards: once the arms
+    that can still be reached all store the same constant, the test of the temporary is decided too (iterated)."""
+    cut = list(cut)
+    for _round in range(6):
+        rs = fn.reach([0], cut_edges=cut)
+        grew = False
+        for (gb, gi, g) in all_guards(fn):
+            t_ = strip_refs(g.term)
+            if g.kind == "bool" and t_[0] == "var" and gb in rs and (gb, gi) not in cut:
+                vals = set()
+                for d in fn.defs().get(t_[1], []):
+                    if d[0] in ("assign", "call") and d[1] in rs:
+                        dv = fn.term_of_rvalue(d[3], d[1]) if d[0] == "assign" else fn.call_term(d[2], d[1])
+                        if dv[0] == "c":
+                            vals.add(bool(dv[1]))
+                        else:
+                            fv = fold(dv) if fold else None      # the caller's substitution may decide the defining term
+                            vals.add(None if fv is None else bool(fv))
+                    elif d[1] in rs:
+                        vals.add(None)
+                if len(vals) == 1 and None not in vals and (list(vals)[0] != g.truth):
+                    cut.append((gb, gi))
+                    grew = True
+        if not grew:
+            break
+    return cut
 
 
 def try_inner(term):
